@@ -1,10 +1,10 @@
-SPECIFICATION Spec
+SPECIFICATION FairSpec
 CONSTANTS
-  Config = "t3x"
-  T = 3
+  Config = "live"
+  T = 2
   K = 1
   Thorough = TRUE
-  RenderDepth = 6
+  RenderDepth = 3
   NestedRead = FALSE
   WriterPreferring = TRUE
   SplitGuards = FALSE
@@ -28,6 +28,6 @@ INVARIANTS
 PROPERTIES
   LinearizableStep
   WritesOnlyUnderLock
-POSTCONDITION Emit
+  Termination
+POSTCONDITION NoEmit
 CHECK_DEADLOCK TRUE
-VIEW View
